@@ -566,6 +566,11 @@ UriBool URI_FUNC(FixAmbiguity)(URI_TYPE(Uri) * uri,
 		UriMemoryManager * memory) {
 	URI_TYPE(PathSegment) * segment;
 
+	if (URI_FUNC(IsHostSet)(uri)) {
+		/* A path behind an authority cannot be mistaken for one */
+		return URI_TRUE;
+	}
+
 	if (	/* Case 1: absolute path, empty first segment */
 			(uri->absolutePath
 			&& (uri->pathHead != NULL)
